@@ -30,14 +30,16 @@ INFO = dict(
               'endpoints for the aperture) equal the reference set R\', without duplicates, active and idle disjoint, _servers has exactly R\', '
               'the heap invariant still holds, and a dispatch afterwards reaches a member of R\' (never a departed one). (b) The real Open() on '
               'the virtual loop with a server-set provider whose initial listing takes a symbolic time while join/leave notifications arrive at '
-              'symbolic instants (before, during, after loading): after quiescence the balancer holds exactly the provider\'s final set.',
-  bounds={'quick': '|U| <= 4, |R| <= 3; aperture min_size in {1,2}; gating: 2 initial members, 2 notifications', 'thorough': '|U| <= 5, |R| <= 4; gating: 3 notifications'},
+              'symbolic instants (before, during, after loading): after quiescence the balancer holds exactly the provider\'s final set. (c) The real ZooKeeperServerSetProvider and '
+              'ServerSet (kazoo watch recipes over the in-memory znode tree of C19, symbolic watch-delivery delays) feeding the real Open(): after a '
+              'history of member znodes created / deleted (before, during, after the open) the balancer holds exactly the members in the tree.',
+  bounds={'quick': '|U| <= 4, |R| <= 3; aperture min_size in {1,2}; gating: 2 initial members, 2 notifications; ZooKeeper provider: 2 znode changes over 3 names', 'thorough': '|U| <= 5, |R| <= 4; gating: 3 notifications; ZooKeeper provider: 3 znode changes'},
   outside=['larger universes', 'named (additional) endpoints', 'provider failures during Initialize/GetServers (retry loop)'],
   stubs=['random.* in heap/aperture/base -> symbolic (3.3); shuffle = identity', 'fake channels, fake server-set provider (3.12)', 'virtual loop (3.1)'],
   assumptions=['notifications are delivered serially in the order they occurred (the provider contract stated in base.py)', 'invariant = reachable states'],
 )
 EXPECT_COVERS = ['join-while-still-pending', 'join-new', 'join-duplicate', 'leave-present', 'leave-unknown', 'aperture-leave-active-replaced-from-idle',
-                 'aperture-join-goes-idle', 'gating-notification-during-load']
+                 'aperture-join-goes-idle', 'gating-notification-during-load', 'zk-member-created', 'zk-member-deleted', 'zk-change-during-open']
 
 
 def jobs(tier):
@@ -61,6 +63,9 @@ def jobs(tier):
             js.append(dict(name='%s-%s-%s%d' % (base, op, kind, t), op=op, kind=kind, t=t, cls=cls, na=na, ni=ni, ms=ms, cost=4 ** na))
   for cls in ('heap', 'aperture'):
     js.append(dict(name='gating-%s' % cls, op='gating', cls=cls, nn=2 if tier == 'quick' else 3, cost=3000, shards=16, shard_depth=6))
+  kz = 2 if tier == 'quick' else 3
+  for cls in ('heap', 'aperture'):
+    js.append(dict(name='zk-provider-%s-k%d' % (cls, kz), op='zk', cls=cls, k=kz, cost=3000, shards=16, shard_depth=6))
   return js
 
 
@@ -124,6 +129,8 @@ def make_body(job):
   def body():
     if op == 'gating':
       return gating(job)
+    if op == 'zk':
+      return zk_provider(job)
     cls, na, ni, ms = job['cls'], job['na'], job['ni'], job['ms']
     c = build(cls, na, ni, ms)
     s = c.sink
@@ -237,3 +244,57 @@ def gating(job):
   check('gating.servers-map', set(s._servers.keys()) == set(final))
   check('no-greenlet-error', not vtime.ERRORS)
   s.Close()
+
+
+def zk_provider(job):
+  """the real ZooKeeperServerSetProvider + ServerSet (kazoo's real watch recipes over the in-memory znode tree of C19)
+  feeding the real balancer through its real Open(): after a history of member znodes being created and deleted the
+  balancer holds exactly the members present in the tree"""
+  from . import c19 as Z
+  from scales.loadbalancer.serverset import ZooKeeperServerSetProvider
+  vtime.setup()
+  heap_mod.random = stubs.SymRandom('heap'); ap_mod.random = stubs.SymRandom('ap'); base_mod.random = stubs.SymRandom('base')
+  import scales.varz as vz
+  vz.math = stubs.SymMath(); vz.float = stubs.sym_float
+  cls = job['cls']
+  C = HeapBalancerSink if cls == 'heap' else ApertureBalancerSink
+  delays = {}
+  def delay(i):
+    if i not in delays: delays[i] = fresh_real('watch_delay%d' % i, 0, 2)
+    return delays[i]
+  t = Z.Tree(delay); zk = Z.FakeZk(t)
+  t.create('/svc'); t.create('/svc/member_A', Z.member_blob(0)); t.create('/svc/other_node', b'{}')
+  ssp = ZooKeeperServerSetProvider(zk, '/svc')
+  prov = ChanProvider()
+  d = dict(C.Builder._defaults); d['server_set_provider'] = ssp
+  if cls == 'aperture': d.update(min_size=1, jitter_min_sec=0, jitter_max_sec=0)
+  s = C(prov, C.Builder.PARAMS_CLASS(**d), {SinkProperties.Label: 'verif'})
+  ar = s.Open()
+  first_at = fresh_real('first_change_at', 0, 3)
+  if hdecide(first_at > 0): gevent.sleep(first_at)
+  if s._state != ChannelState.Open: cover('zk-change-during-open')
+  for step in range(job['k']):
+    if step:
+      g = fresh_real('gap%d' % step, 0, 3)
+      if hdecide(g > 0): gevent.sleep(g)
+    present = t.children('/svc')
+    ops = [('delete', n) if n in present else ('create', n) for n in Z.NAMES]
+    o, n = ops[choose('op%d' % step, len(ops))]
+    if o == 'create': t.create('/svc/' + n, Z.member_blob(Z.NAMES.index(n))); cover('zk-member-created')
+    else: t.delete('/svc/' + n); cover('zk-member-deleted')
+  gevent.sleep(30)
+  check('zk.open-completes', ar.ready())
+  eps, idle = held_endpoints(s)
+  held = [(e.host, e.port) for e in eps + idle]
+  final = [('h%d' % Z.NAMES.index(n), 9000 + Z.NAMES.index(n)) for n in t.children('/svc') if n.startswith('member_')]
+  check('zk.equals-tree-members', set(held) == set(final) and len(held) == len(set(held)))
+  check('zk.servers-map', set((e.host, e.port) for e in s._servers.keys()) == set(final))
+  # eligibility: a dispatch reaches a current member
+  if final:
+    st = ClientMessageSinkStack(); term = B.Terminal(); st.Push(term)
+    msg = MethodCallMessage(None, 'm', (), {})
+    s.AsyncProcessRequest(st, msg, None, None)
+    ep = msg.properties.get(MessageProperties.Endpoint)
+    check('zk.dispatch-to-current-member', ep is not None and (ep.host, ep.port) in final)
+  check('no-greenlet-error', not vtime.ERRORS)
+  s.Close(); t.worker.kill(block=False)
